@@ -125,10 +125,53 @@ def shard(shard, nshards, tier, seed):
             acc.violation({"type": s}, "not-reflexive", {"got": r})
         if i % 37 == 0:
             acc.sample({"type": s, "denotation": [c for c in U.WORLD if denotes(c, s)]})
+    # (c) two typed methods on one function: each must be applicable exactly on its own denotation, whatever the other is
+    pool = pair_pool(tier)
+    acc.extra["pair_pool"] = len(pool)
+    for idx, (s1, s2) in enumerate(itertools.permutations(pool, 2)):
+        if idx % nshards == shard:
+            check_pair(s1, s2, classes, acc)
+            if idx % 200 == 0:
+                gen.purge_globals()
     if shard == 0:
         laws(acc, tier)
         deferred(acc)
     return acc
+
+
+def pair_pool(tier):
+    specs = static_specs(1 if tier == "quick" else 2)
+    if tier == "quick":
+        specs = [s for s in specs if isinstance(s, str) or s[0] in ("exactly", "strict", "hasmethod")
+                 or (s[0] in ("union", "inter") and len(s) == 3 and s[1] in ("K0", "K1") and s[2] in ("K3", "K4", "int"))]
+    return specs
+
+
+def check_pair(s1, s2, classes, acc):
+    mspecs = [{"id": 0, "shape": gen.SHAPES["x"], "types": {"x": s1}, "prio": 0},
+              {"id": 1, "shape": gen.SHAPES["x"], "types": {"x": s2}, "prio": 0},
+              {"id": 2, "shape": gen.SHAPES["x"], "types": {"x": "O"}, "prio": -1}]
+    found = []
+    try:
+        prog = gen.Program(classes, mspecs, annotate=lambda t, c: annot._ntype(t, c))
+    except Exception as e:  # noqa
+        found.append((None, "pair:build-refused", {"exc": core.short_exc(e)}))
+        prog = None
+    for cname in U.WORLD if prog else ():
+        app = [i for i, s in enumerate((s1, s2)) if denotes(cname, s)]
+        out = prog.call((instance_of(cname),), {})
+        if acc is not None:
+            acc.count("evaluations")
+            acc.h("pair_applicable", str(len(app)))
+            if app:
+                acc.count("nontrivial")
+        ok = (out[0] == "ret" and len(out[1]) == 1 and out[1][0] in (app or [2])) or (out[0] == "ambiguous" and len(app) == 2 and not out[1])
+        if not ok:
+            found.append((cname, "pair:dispatch-vs-meaning", {"applicable": app, "observed": [out[0], list(out[1])], "exc": out[2] if out[0] != "ret" else None}))
+    if acc is not None:
+        for cname, disc, detail in found:
+            acc.violation({"pair": [s1, s2], "class": cname}, disc, detail)
+    return found
 
 
 def laws(acc, tier):
@@ -279,6 +322,8 @@ def replay(case):
     acc = core.Acc(PROP)
     classes = dict(U.CLASSES)
     classes.update(U.WORLD_CLASSES)
+    if "pair" in case:
+        return [(d, x) for c, d, x in check_pair(case["pair"][0], case["pair"][1], classes, None) if c == case["class"]]
     if "type" in case and "class" in case:
         s, cname = case["type"], case["class"]
         T = annot._ntype(s, classes)
@@ -308,7 +353,9 @@ def main(tier):
         rule="every static type of the universe (classes, ABC with virtual subclass, protocol, Union, Intersection, Exactly, "
              "StrictSubclass, HasMethod to nesting depth 2; thorough: every depth-1 type nested) x every class of a closed world: subclasscheck(C, T) must "
              "equal membership in T's denotation computed from the documented meaning, and a function with f(x: T) plus an object "
-             "fallback must run the T method on an instance of C iff C is in the denotation; Deferred[...] on a scratch module "
+             "fallback must run the T method on an instance of C iff C is in the denotation; every ordered pair of depth-1 types "
+             "(quick: classes, Exactly, StrictSubclass, HasMethod and a selection of unions / intersections) as two methods of one "
+             "function + fallback (thorough: every ordered pair of the depth-2 selection): the method that runs must be one whose type's denotation contains C (ambiguity only when both do); Deferred[...] on a scratch module "
              "before and after import; laws: reflexivity, == issubclass on all class pairs, transitivity on all triples and "
              "argument-wise covariance on the class + parametrised generic fragment; non-trivial = (T, C) with C in [[T]]",
         assumptions=["denotation rules of vt/c13.py are the documented meaning (docs/types.md)"],
